@@ -5,7 +5,7 @@ MODEL = {"quick": dict(Vals="{0, 1, 2}", MaxH=3, Scenario='"faithful"'),
          "thorough": dict(Vals="{0, 1, 2}", MaxH=4, Scenario='"faithful"')}
 # unfaithful codecs: each must violate the property predicates (the predicates are not vacuous)
 NEGATIVE = ["skipfield", "rename", "noguard", "skipmiddle"]
-GEN = {"quick": dict(MaxData=1, MaxChain=2), "thorough": dict(MaxData=3, MaxChain=3)}
+GEN = {"quick": dict(MaxData=1, MaxChain=2, MaxWideChain=2), "thorough": dict(MaxData=3, MaxChain=3, MaxWideChain=2)}
 INVS = ["InvTwins", "InvDecodes", "InvSameVal", "InvVerdict", "InvGuard", "InvIncremental"]
 ACTIONS = ["Observe", "RoundTrip", "Rearm"]
 TRACE_CONST = dict(Vals="{}", MaxH=0, Scenario='"trace"')
@@ -27,22 +27,22 @@ def negative_runs(ctx):
 def random_cases(ctx, count):
     """seeded cases of the same schema: larger data seeds, longer alternating chains"""
     import json, os
-    base = vlib.tlc_gen(ctx, "Gen_Persist", {"constants": dict(MaxData=1, MaxChain=1), "invariants": ["Emit"]}, tag="Gen_Persist_base")
+    base = vlib.tlc_gen(ctx, "Gen_Persist", {"constants": dict(MaxData=1, MaxChain=1, MaxWideChain=1), "invariants": ["Emit"]}, tag="Gen_Persist_base")
     heads = {}
     for c in base:
         i = c["inp"]
-        heads[(c["kind"], i["type"], i["ft"], i["var"])] = 1
+        heads[(c["kind"], i["type"], i["ft"], i["var"], i["wide"])] = 1
     heads = sorted(heads)
     out = []
     r = ctx.rng
     for _ in range(count):
-        kind, ty, ft, var = r.choice(heads)
+        kind, ty, ft, var, wide = r.choice(heads)
         n = r.randint(1, 4)
         first = r.choice(["bincode", "json"])
         fm = [first if k % 2 == 0 else ("json" if first == "bincode" else "bincode") for k in range(n)]
         if r.random() < 0.3:
             fm = [r.choice(["bincode", "json"]) for _ in range(n)]
-        out.append({"kind": kind, "inp": {"type": ty, "ft": ft, "var": var, "data": r.randint(4, 400), "fmts": fm}})
+        out.append({"kind": kind, "inp": {"type": ty, "ft": ft, "var": var, "data": r.randint(4, 400), "wide": wide, "fmts": fm}})
     return out
 
 
@@ -217,7 +217,7 @@ def iso_probe(ctx):
 
 def offer_cases(ctx, probes, start):
     """one case per catalogue type: the harness side here is the compile-time probe output"""
-    names = vlib.tlc_gen(ctx, "Gen_Persist", {"init": "InitOffer", "constants": dict(MaxData=1, MaxChain=1), "invariants": ["Emit"]},
+    names = vlib.tlc_gen(ctx, "Gen_Persist", {"init": "InitOffer", "constants": dict(MaxData=1, MaxChain=1, MaxWideChain=1), "invariants": ["Emit"]},
                          tag="Gen_Persist_offer")
     traces = []
     for i, c in enumerate(names):
@@ -241,12 +241,30 @@ def run(ctx):
         cases += random_cases(ctx, 3000)
     vlib.number(cases)
     ctx.cases = len(cases)
-    ctx.nontrivial = len({(c["inp"]["type"], c["inp"]["ft"], c["inp"]["var"], c["inp"]["data"], tuple(c["inp"]["fmts"]))
+    ctx.nontrivial = len({(c["inp"]["type"], c["inp"]["ft"], c["inp"]["var"], c["inp"]["data"], c["inp"]["wide"], tuple(c["inp"]["fmts"]))
                           for c in cases if nontrivial(c)})
     traces = vlib.run_harness(ctx, binp, cases)
     types = sorted({c["inp"]["type"] for c in cases})
     lossy = sum(1 for t in traces for e in t["ev"] if e.get("ev") == "rt" and not e.get("lossless", True))
     rts = sum(1 for t in traces for e in t["ev"] if e.get("ev") == "rt")
+    # vacuity guard for the layout-dependent code paths: the domain must contain values whose matrix parameters
+    # change their memory layout in a round trip (only those can expose layout-dependent arithmetic)
+    relaid = 0
+    for t in traces:
+        lay = {}
+        diff = False
+        for e in t["ev"]:
+            if e.get("ev") == "obs" and e.get("cls") == "l":
+                if e["h"] == 0:
+                    lay[e["key"]] = e["d"]
+                elif lay.get(e["key"]) != e["d"]:
+                    diff = True
+        relaid += diff
+    wide = sum(1 for c in cases if c["inp"].get("wide") == 1)
+    ctx.extra["wide_cases_8_to_12_features"] = wide
+    ctx.extra["cases_whose_matrix_layout_changes_in_a_round_trip"] = relaid
+    if wide == 0 or relaid == 0:
+        raise vlib.ToolError("no wide case / no case whose matrix layout changes in a round trip (vacuous for layout-dependent code)")
     ctx.extra["catalogue_types"] = len(types)
     ctx.extra["round_trips_recorded"] = rts
     ctx.extra["json_documents_not_lossless_in_serde_json"] = lossy
